@@ -32,7 +32,7 @@ ASSUMPTIONS = [
     "injection into the chdir that restores the starting directory is exempt (it cannot be expected to succeed if it is made to fail)",
     "Windows path semantics, URLs and fsspec paths are out of scope",
 ]
-PROBES = ["a-accepted", "a-rejected", "a-skipped-ambiguous", "b-nested-chdir", "b-sabotaged-rejected", "b-sweep-site", "b-fault-fired", "chdir-restore-with-exception-in-flight", "b-depth3"]
+PROBES = ["b-through-symlinked-dir", "a-accepted", "a-rejected", "a-skipped-ambiguous", "b-nested-chdir", "b-sabotaged-rejected", "b-sweep-site", "b-fault-fired", "chdir-restore-with-exception-in-flight", "b-depth3"]
 ANCHOR_FILES = ("_util", "typing", "_typehints", "_core", "_actions")
 NO_SHRINK = ("part", "world/cwd", "b", "b/*")
 SHRINK_DICTS = ("world/files", "world/symlinks", "world/dirmodes", "world/env")
@@ -119,8 +119,14 @@ def gen_a(rng, tier):
     return {"part": "a", "world": w, "probes": probes, "faults": [], "tier": tier}
 
 
+LINK = {}  # generation-time only: {"dir": <world dir reachable through the symlink 'ln'>}
+
+
 def _spell(rng, target, base):
     """spelling of `target` (world-relative) as written inside a file living in `base`"""
+    ld = LINK.get("dir")
+    if ld and target.startswith(ld + "/") and rng.random() < 0.5:
+        target = "ln/" + target[len(ld) + 1 :]  # the spelled path crosses a symlinked directory
     if rng.random() < 0.15:
         return "$W/" + target
     s = os.path.relpath(target, base)
@@ -141,6 +147,9 @@ def gen_b(rng, tier):
         files[fn] = "x"
         return fn
 
+    LINK.clear()
+    if rng.random() < 0.35:
+        LINK["dir"] = rng.choice(["A/B", "A/B/C", "cfgs", "data", "lists"])
     feats = set(f for f in ["inner", "deep", "obj", "lst", "dcf", "p"] if rng.random() < 0.6)
     if "deep" in feats:
         feats.add("inner")
@@ -227,6 +236,8 @@ def gen_b(rng, tier):
         opts["default_config_files"] = ["$W/dflt/d.yaml"]
     cwd = rng.choice(["run", "run", "A", "data", "lnrun"])
     symlinks = {}
+    if LINK.get("dir"):
+        symlinks["ln"] = LINK["dir"]
     if cwd == "lnrun":
         symlinks["lnrun"] = "run"
     cwd_real = "run" if cwd == "lnrun" else cwd
@@ -634,6 +645,8 @@ def exec_b(sc, ctx):
                 fh.write("{broken: [1\n")
     if any(k.count(".") >= 2 for k in b["expected"]):
         sim.probe("b-depth3")
+    if "ln/" in json.dumps([b["op"], sc["world"]["files"]]):
+        sim.probe("b-through-symlinked-dir")
     side = root + ".side"
     cwd = os.getcwd()
     st, gold = fork_call(b_run, sc, root, [], True)
